@@ -19,7 +19,7 @@ RULE = ('Noll indices 1..231 (quick) / 1..1326 (thorough) enumerated completely 
 ASSUMPTIONS = ['the sign of sine modes is not pinned by the property: +sin and -sin are both accepted (per mode)']
 PLAN = {'quick': {'gen': 8}, 'thorough': {'gen': 16, 'tests': 1, 'docs': 1}}
 REQUIRED_BUCKETS = ['index', 'value:normalized', 'value:unnormalized', 'gram:diag', 'gram:offdiag', 'coords:even', 'coords:odd',
-                    'coords:offcentre', 'support-only', 'coords:shared', 'basis', 'compose:normalized', 'compose:unnormalized', 'theta:undefined-for-m=0', 'coords:narrow-float', 'value:high-order', 'coords:rho>1', 'coords:result-edited', 'zero-outside:overflow', 'coords:theta-only', 'index:type=uint64', 'index:type=int', 'value:index-type', 'coords:undefined-outside-mask']
+                    'coords:offcentre', 'support-only', 'coords:shared', 'basis', 'compose:normalized', 'compose:unnormalized', 'theta:undefined-for-m=0', 'coords:narrow-float', 'value:high-order', 'coords:rho>1', 'coords:result-edited', 'zero-outside:overflow', 'coords:theta-only', 'index:type=uint64', 'index:type=int', 'value:index-type', 'coords:undefined-outside-mask', 'basis:weighted-mask']
 REQUIRED_ANCHORS = ['probe:zernike_index', 'anchor:R', 'anchor:zernike', 'anchor:zernike_coordinates']
 REQUIRED_ORACLES = ['index=noll', 'index:bijective', 'mode=textbook', 'R(1)=1', 'gram=I', '|Z|<=1', 'rho=centroid-distance',
                     'origin=centroid', 'zero-outside', 'support-only']
@@ -236,6 +236,11 @@ def workload(ctx, lentil):
             fam = [j for j, (n2, m2, p2) in _NOLL.items() if j <= 66 and m2 == m_az]
             modes = rng.permutation(rng.choice(fam, size=min(k + 1, len(fam)), replace=False)).tolist()
         mask = masks[0].astype(float)
+        mask_bin = mask
+        if i % 3 == 1:
+            # the mask enters only through its support: apodised / signed weights (every non-zero entry belongs to it)
+            mask = mask * 10.0 ** rng.uniform(-6, 3, size=shape) * rng.choice([-1, 1], size=shape)
+            ctx.bucket('basis:weighted-mask')
         normalize = bool(rng.random() < 0.5)
         supplied = bool(rng.random() < 0.5)
         ctx.case({'basis': [int(x) for x in modes], 'shape': list(shape), 'supplied': supplied}, ['basis'])
@@ -248,7 +253,7 @@ def workload(ctx, lentil):
             worst = 0.0
             if ok:
                 for row, j in zip(B, modes):
-                    single = np.asarray(lentil.zernike(mask, int(j), normalize=normalize, **kwb), float) + np.zeros(shape)
+                    single = np.asarray(lentil.zernike(mask_bin, int(j), normalize=normalize, **kwb), float) + np.zeros(shape)
                     worst = max(worst, float(np.max(np.abs(row - single))))
                 worst = max(worst, float(np.max(np.abs(Bv.reshape(B.shape) - B))))
             ctx.check(ok and worst <= 1e-12 * max(1.0, float(np.max(np.abs(B))) if B.size else 1.0), 'mode=textbook', 'basis|rows',
